@@ -534,6 +534,7 @@ def subscription_failures(prog, steps, effect_write_free=True):
     (2) a write re-runs every subscriber of the written signal and of every derived node that fired."""
     comps = computations(prog)
     fails = []
+    all_single = None
     for k, st in enumerate(steps):
         if st["snap"] is None:
             break
@@ -552,6 +553,20 @@ def subscription_failures(prog, steps, effect_write_free=True):
             if exp != got:
                 fails.append({"oracle": "subscriptions=tracked-reads", "step": k, "node": name, "tracked_reads": exp,
                               "subscriptions": got, "known": None})
+        # (1') the other direction of every edge: a node's subscriber list holds exactly one entry per entry of a live computation's
+        # dependency list (both are per-read lists) -- a subscriber entry that no dependency list accounts for is a subscription to
+        # something the subscriber's latest run did not read (seed C03-g). Only for programs in which every name denotes one node.
+        if all_single is None:
+            all_single = set(comps) <= single_instance_names(prog) and not any(x == "?" for n in nodes.values() if n.get("alive") for x in n["deps"])
+        if all_single and not any(x == "?" for n in nodes.values() if n.get("alive") for x in n["deps"]):
+            for name, n in nodes.items():
+                if not n.get("alive"):
+                    continue
+                want = sum(m["deps"].count(str(name)) for m in nodes.values() if m.get("alive"))
+                got = n["dependents"] - n["dead_dependents"]
+                if got != want:
+                    fails.append({"oracle": "subscriber-entries=dependency-entries", "step": k, "node": name, "subscriber_entries": got,
+                                  "dependency_entries_naming_it": want, "known": None})
         if k >= len(prog) or prog[k][0] != "set" or k == 0 or not steps[k - 1]["snap"]:
             continue
         prev = steps[k - 1]["snap"]["nodes"]
